@@ -63,6 +63,7 @@ func runC19(c *Ctx) {
 		{"align", "*align", "Consensus", 0},
 		{"align", "*align", "Split", 0},
 		{"align", "*align", "RandSubAlign", 0},
+		{"align", "*align", "CodonAlign", 0},
 	})
 	L.Floor("result-owns-data", 5, "copy-producing operations of the property (floor = half of the instances on the pinned tree: a clean-up may merge instances, a rule that sees nothing must still fail)")
 
